@@ -165,7 +165,7 @@ def compare(chk, ir, tree, cfg="doc"):
             continue
         for (n, pa), (_, pb) in zip(a, b):
             if pa["default"] != pb["default"]:
-                sig = {"hop": f, "field": "default", "from": kind(pa["default"]), "to": kind(pb["default"]), "typ": typ_class(pa["typ"])}
+                sig = {"hop": f, "field": "default", "from": kind(pa["default"]), "to": kind(pb["default"]), "typ": typ_class(pa["typ"]), "cfg": cfg}
                 if pa["default"] is not None and pa["default"][0] == "str" and len(pa["default"][1]) >= 40:
                     sig["long"] = True
                 chk.failure(sig, "chain %s: %s.default %r -> %r (type %r)" % (seq, n, pa["default"], pb["default"], pa["typ"]), rp)
